@@ -757,6 +757,27 @@ func ruleParent(w *World, r *Report, pkg *ssa.Package) {
 			}
 		})
 	}
+	// the parent of a pointer is everything before its LAST separator
+	first := ""
+	for f := range reach {
+		allInstrs(f, func(in ssa.Instruction) {
+			sl, ok := in.(*ssa.Slice)
+			if !ok || !isStringType(sl.X.Type()) || sl.High == nil {
+				return
+			}
+			if c, ok := stripInt(sl.High).(*ssa.Call); ok {
+				switch calleeFullName(c) {
+				case "strings.Index", "strings.IndexByte", "strings.IndexRune", "strings.IndexAny":
+					if len(c.Call.Args) >= 1 && strip(c.Call.Args[0]) == strip(sl.X) {
+						first = fnName(f) + " cuts the pointer at its first separator (" + calleeFullName(c) + ") at " + w.Pos(sl.Pos())
+					}
+				}
+			}
+		})
+	}
+	r.Check(first == "", rule, fnName(top)+":parent-is-up-to-the-last-separator", w.Pos(top.Pos()),
+		"no function the context reader reaches cuts a pointer at its first separator",
+		first+": every pointer below the root then has the same `parent`, so a test on one array is taken as context of an edit in another (more permissive than RFC 6902)")
 	r.Check(glued == "", rule, fnName(top)+":pointer-identity-on-escaped-text", w.Pos(top.Pos()),
 		fmt.Sprintf("none of the %d functions the context reader reaches glues decoded pointer tokens back into a string", len(reach)),
 		glued+": after decoding, `~1` is a plain `/`, so the pointers /a~1b/0 and /a/b/0 get the same text; a test on one array is then taken as context of an edit in the other (more permissive than RFC 6902)")
